@@ -200,7 +200,7 @@ def write_evidence(prop, tier, seed, plan, ev, nviol, undecided, wall):
         bounded=ev['bounded'],
         cover_points=ev.get('cover_points', []),
         canaries=ev['canaries'],
-        samples=(ev['samples'][:12] or [dict(note='no obligations generated')]),
+        samples=((ev['samples'][:8] + [dict(harness=k['harness'], config=k.get('config'), status=k.get('status'), cbmc_checks=k.get('checks'), seconds=k.get('time_s')) for k in ev['kani_runs'][:10]]) or [dict(note='no obligations generated')]),
         extraction_rewrites=sorted(ev['rewrites']), extraction_dropped=sorted(ev['dropped']),
         trusted_functions=sorted(ev['trusted_fns']),
         undecided=undecided,
@@ -215,9 +215,10 @@ def write_evidence(prop, tier, seed, plan, ev, nviol, undecided, wall):
         exhaustive=False,
     )
     if kani_ok or ev['kani_runs']:
-        cov['states'] = sum(k.get('checks', 0) for k in ev['kani_runs']) or 1
-        cov['transitions'] = sum(k.get('checks', 0) for k in ev['kani_runs']) or 1
-        cov['traces_validated_against_impl'] = sum(1 for k in ev['kani_runs'] if k.get('native_ok'))
+        # CBMC does not report explored states/transitions (symbolic search): the exploration-style keys above are the
+        # coverage record for the model-checking level; the number of CBMC properties checked is given for information
+        cov['cbmc_properties_checked'] = sum(k.get('checks', 0) or 0 for k in ev['kani_runs'])
+        cov['harness_inputs'] = 'see kani_harnesses[*].harness: spec_<Def>_n<N>_s<S> = all inputs of N bytes; ctx_<Def>_<context> = concrete bytes with _q marking a fully symbolic byte; hex escapes _xx'
     d = dict(property_id=prop, tier=tier, seed=seed, level=level, coverage=cov,
              assumptions=sorted(ev['assumptions_scanned']) + P.ASSUMPTIONS.get(prop, []) + P.ASSUMPTIONS['*'],
              wall_s=round(wall, 2), violations=nviol)
